@@ -6,6 +6,9 @@ Fully explicit files (every segment restates everything; inheritance belongs to 
          orders, per-segment lengths incl. 0, chunk counts, both layouts
  part 3  properties: every readable property type on root / group / channel with
          set / overwrite / overwrite-with-other-type / add-second patterns
+ part 4  a few shapes beyond the small bounds (wide, long, strings, declaration order)
+ part 5  every subset of a segment's objects carrying properties x a second segment (first-appearance order and
+         last-value-wins must not depend on which objects have properties)
 Oracle: TdmsFile.read (and TdmsFile.open + channel[:]) against the reference interpretation.
 """
 import itertools
@@ -235,6 +238,34 @@ def run_part4(item):
     return res
 
 
+# --- part 5: which objects of a segment carry properties (order of first appearance must not depend on it) ----------------
+
+P5_SHAPES = [[GG, GH, A, B, C], ['/', GH, C, GG], [GH, GG], [A, B], [B, A, GG], [C, B, A], ['/', GG, A], [GG, B, GH]]
+P5_TYPES = {A: 'Int32', B: 'Int16', C: 'DoubleFloat'}
+
+
+def _p5_seg(shape, mask, k):
+    objs = []
+    for i, p in enumerate(shape):
+        props = [['p', 'Int32', bytes([k * 16 + i, 0, 0, 0]).hex()], ['q%d' % k, 'String', b'v'.hex()]] if mask >> i & 1 else []
+        objs.append((p, full(P5_TYPES[p], 1) if p in P5_TYPES else ['NODATA'], props))
+    return G.seg(objs)
+
+
+def run_part5(item):
+    si, seed = item
+    res = _res()
+    shape = P5_SHAPES[si]
+    for mask in range(1 << len(shape)):
+        s1 = _p5_seg(shape, mask, 0)
+        _exec(res, [s1], seed, {'part': 5, 'shape': si}, mask > 0)
+        for sj, shape2 in enumerate(P5_SHAPES):
+            full2 = (1 << len(shape2)) - 1
+            for mask2 in sorted({0, full2, 1, 1 << (len(shape2) - 1), 0b01010 & full2, 0b10101 & full2}):
+                _exec(res, [s1, _p5_seg(shape2, mask2, 1)], seed, {'part': 5, 'shape': si, 'shape2': sj}, mask + mask2 > 0)
+    return res
+
+
 # --- execution -------------------------------------------------------------------------
 
 def _res():
@@ -282,7 +313,8 @@ def run(ctx):
         for first in range(len(_labs2(ctx.tier, depth))):
             items.append((first, depth, ts, ctx.tier, seed))
     r2 = merge(ctx.map(run_part2, items, chunksize=2))
-    r3 = merge(ctx.map(run_part3, [(t, seed) for t in G.PROP_TYPES]) + ctx.map(run_part4, [(w, seed) for w in ('wide', 'long', 'strings', 'order')]))
+    r3 = merge(ctx.map(run_part3, [(t, seed) for t in G.PROP_TYPES]) + ctx.map(run_part4, [(w, seed) for w in ('wide', 'long', 'strings', 'order')])
+               + ctx.map(run_part5, [(si, seed) for si in range(len(P5_SHAPES))]))
     m = merge([{k: r[k] for k in ('counters', 'outcomes', 'violations', 'samples')} for r in (r1, r2, r3)])
     vac = []
     if not (r1['counters'].get('files') and r2['counters'].get('files') and r3['counters'].get('files')):
